@@ -92,7 +92,10 @@ ParseFloatContract(ev) ==
         ELSE IF sp.k # "no" THEN
             \* a special string without a sign under required_mantissa_sign: the grammar of numbers demands the sign, the
             \* documentation of the special strings does not say - accepted or MissingSign, both pass
+            \* likewise '+' in front of a special string under no_positive_mantissa_sign (the code applies the sign rules of
+            \* the format to special strings too: MissingSign / InvalidPositiveSign)
             IF f.required_mantissa_sign /\ n >= 1 /\ s[1] \notin {CPlus, CMinus} THEN << >>
+            ELSE IF f.no_positive_mantissa_sign /\ n >= 1 /\ s[1] = CPlus THEN << >>
             ELSE IF r.k # "ok" THEN << << "C15", "special string not accepted" >> >>
             ELSE IF r.n # n THEN << << "C15", "special string not consumed in full" >> >>
             ELSE IF r.v.cls # sp.k THEN << << "C15", "special string parsed to the wrong class" >> >>
